@@ -4,7 +4,8 @@
     every stream and EVERY chunking of it (no bound on lengths or on the number of deliveries). *)
 From Coq Require Import List Arith NArith Bool.
 From TwLib Require Import PyBytes Seg.
-From C16 Require Import Model Proofs ProofsNs Theorems.
+From TwLib Require Import SegApp.
+From C16 Require Import Model Proofs ProofsNs ModelApp ProofsApp Theorems.
 Import ListNotations.
 
 Theorem linereceiver_segmentation_invariant : forall max delim cs s, delim <> [] -> chunks cs s ->
@@ -160,6 +161,90 @@ Theorem netstring_over_limit_never_delivered : forall max cs s,
   In (Str s) (fst (run (ns_feed max) init cs)) -> (N.of_nat (length s) <= max)%N.
 Proof. exact netstring_over_limit_never_delivered_proof. Qed.
 Print Assumptions netstring_over_limit_never_delivered.
+
+
+
+(** ** receivers with a reacting application (ModelApp.v): raw mode and mode switches, pause / resume, recvd.
+    The application is ANY function of the message just delivered ([raw_of], [pause_of], [switch_of]); raw data is
+    observed byte by byte, i.e. up to how it is cut into rawDataReceived calls. *)
+
+(** LineReceiver with an application that, on the lines it chooses, calls setRawMode(), takes a counted number of
+    raw bytes and hands the rest back with setLineMode(rest): same lines, same raw bytes, same final mode and
+    buffer for every segmentation *)
+Theorem linereceiver_raw_mode_segmentation_invariant : forall max delim raw_of cs s, delim <> [] -> chunks cs s ->
+  run (la_feed max delim raw_of) la_init cs = run (la_feed max delim raw_of) la_init [s].
+Proof. exact linereceiver_raw_mode_segmentation_invariant_proof. Qed.
+Print Assumptions linereceiver_raw_mode_segmentation_invariant.
+
+
+
+(** after a line for which the application asks for k+1 raw bytes, exactly the next k+1 bytes of the stream are
+    handed over raw (even if they contain delimiters) and line mode resumes right behind them *)
+Theorem linereceiver_counted_body_exact : forall max delim raw_of line k body rest cs, delim <> [] ->
+  clean delim line -> length line <= max -> raw_of line = Some k -> length body = S k ->
+  chunks cs (line ++ delim ++ body ++ rest) ->
+  run (la_feed max delim raw_of) la_init cs =
+  let (e, s) := run (la_feed max delim raw_of) la_init [rest] in (ALine line :: map ARaw body ++ e, s).
+Proof. exact linereceiver_counted_body_exact_proof. Qed.
+Print Assumptions linereceiver_counted_body_exact.
+
+
+
+(** pauseProducing() from lineReceived, resumeProducing() at any later time, data arriving meanwhile, any
+    segmentation: pausing only delays.  At every moment, what has been delivered so far followed by what the
+    buffered bytes will give once resumed is what the never-paused receiver gives for the whole stream ... *)
+Theorem linereceiver_pause_resume_transparent : forall max delim raw_of pause_of ops, delim <> [] ->
+  la_drain max delim raw_of LineM (data_of ops) =
+  match prun (la_step max delim raw_of) (la_stop delim pause_of) la_pinit ops with
+  | (ev, Some (x', r, _)) => let (ev', s) := la_drain max delim raw_of x' r in (ev ++ ev', s)
+  | (ev, None) => (ev, None)
+  end.
+Proof. exact linereceiver_pause_resume_transparent_proof. Qed.
+Print Assumptions linereceiver_pause_resume_transparent.
+
+
+
+(** ... and once nothing is paused any more the two coincide: events, mode and buffer *)
+Theorem linereceiver_pause_resume_settled : forall max delim raw_of pause_of ops ev x' r, delim <> [] ->
+  prun (la_step max delim raw_of) (la_stop delim pause_of) la_pinit ops = (ev, Some (x', r, false)) ->
+  run (la_feed max delim raw_of) la_init [data_of ops] = (ev, Some (x', r)).
+Proof. exact linereceiver_pause_resume_settled_proof. Qed.
+Print Assumptions linereceiver_pause_resume_settled.
+
+
+
+(** IntNStringReceiver whose application, on the strings it chooses, takes the unparsed rest through [recvd],
+    clears it and routes later deliveries elsewhere: segmentation invariant ... *)
+Theorem intn_recvd_switch_segmentation_invariant : forall plen max switch_of cs s, 0 < plen -> chunks cs s ->
+  run (ia_feed plen max switch_of) ia_init cs = run (ia_feed plen max switch_of) ia_init [s].
+Proof. exact intn_recvd_switch_segmentation_invariant_proof. Qed.
+Print Assumptions intn_recvd_switch_segmentation_invariant.
+
+
+
+(** ... and the new consumer gets exactly the bytes after the switching string: none parsed, lost or duplicated *)
+Theorem intn_recvd_handover_exact : forall plen max switch_of s rest cs, 0 < plen ->
+  (N.of_nat (length s) < 256 ^ N.of_nat plen)%N -> (N.of_nat (length s) <= max)%N -> switch_of s = true ->
+  chunks cs ((N_to_be plen (N.of_nat (length s)) ++ s) ++ rest) ->
+  run (ia_feed plen max switch_of) ia_init cs = (AStr s :: map ARaw rest, Some (Switched, [])).
+Proof. exact intn_recvd_handover_exact_proof. Qed.
+Print Assumptions intn_recvd_handover_exact.
+
+
+
+Theorem intn_pause_resume_settled : forall plen max switch_of pause_of ops ev x' r, 0 < plen ->
+  prun (ia_step plen max switch_of) (ia_stop plen pause_of) ia_pinit ops = (ev, Some (x', r, false)) ->
+  run (ia_feed plen max switch_of) ia_init [data_of ops] = (ev, Some (x', r)).
+Proof. exact intn_pause_resume_settled_proof. Qed.
+Print Assumptions intn_pause_resume_settled.
+
+
+
+Example raw_mode_example :
+  let raw_of := raw_table [([], (Some 4, false))] in
+  run (la_feed 20 [13; 10]%N raw_of) la_init [[72; 13]; [10; 13; 10; 13]; [10; 13; 10; 33; 78; 13; 10]]%N
+  = ([ALine [72]; ALine []; ARaw 13; ARaw 10; ARaw 13; ARaw 10; ARaw 33; ALine [78]]%N, Some (LineM, [])).
+Proof. exact raw_mode_example_proof. Qed.
 
 
 
